@@ -42,22 +42,26 @@ Theorem declared_error_roundtrip_partial hw te tbl d e vf :
 Proof. exact (roundtrip hw te tbl d e vf). Qed.
 Print Assumptions declared_error_roundtrip_partial.
 
-(* --- the full statement (without the hypotheses above) is false of the faithful model;
-       each dropped hypothesis has its witness, and each witness is a recorded finding --- *)
+(* --- the full statement (without the wire-safety hypothesis) is false of the faithful model;
+       each loss class has its witness, and each witness is a recorded finding --- *)
 
-(* (1) one user type used by errors of two methods and carrying no ErrorName attribute:
-   GoaErrorName() of the generated type is the name of the FIRST error, so no value of
-   the declared type of "fail_b" is ever dispatched: every one becomes a 500 fault. *)
-Theorem roundtrip_refuted_type_shared_across_methods :
-  exists te tbl d, In d tbl /\ ekind_of d = KCustom "Failure" /\ estatus d = 409 /\
-    forall hw fs, exists evs, encode_error te tbl (ECustom "Failure" fs) = Some evs /\
-                              ws_status (run_writer hw evs) = 500.
+(* (1) [repaired: goa now rejects a user type shared, without an ErrorName attribute, by
+   errors of different names anywhere in a service.]  What the validation buys: when the
+   constant name of every declared custom type is the name of its row, every value of
+   the declared type names itself with the declared name, so the hypothesis
+   "as_namer te e = Some (ename d)" of the round trip holds for all values of that type. *)
+Theorem declared_type_names_itself te tbl :
+  (forall d ty s, In d tbl -> ekind_of d = KCustom ty -> nrule_of te ty = NStatic s -> s = ename d) ->
+  forall d ty fs, In d tbl -> ekind_of d = KCustom ty ->
+                  (forall a, nrule_of te ty = NField a -> lookup a fs = Some (ename d)) ->
+                  as_namer te (ECustom ty fs) = Some (ename d).
 Proof.
-  exists [("Failure", NStatic "fail_a")], [mkdecl "fail_b" 409 (KCustom "Failure") [] (BObject ["why"; "n"])].
-  eexists. split; [left; reflexivity|]. split; [reflexivity|]. split; [reflexivity|].
-  intros hw fs. eexists. split; reflexivity.
+  intros Hs d ty fs Hin Hk Hf. simpl. unfold custom_name.
+  destruct (nrule_of te ty) as [s|a] eqn:E.
+  - rewrite (Hs d ty s Hin Hk E). reflexivity.
+  - rewrite (Hf a eq_refl). reflexivity.
 Qed.
-Print Assumptions roundtrip_refuted_type_shared_across_methods.
+Print Assumptions declared_type_names_itself.
 
 (* (2) a header-carried string with edge white space (or a line break) is rewritten by
    net/http: the client gets another value *)
